@@ -314,6 +314,12 @@ Proof.
     rewrite <- E2. ring.
 Qed.
 
+Lemma check_all_spec N : check_all N = true -> forall n m, (m <= n)%nat -> (n <= N)%nat -> check n m = true.
+Proof.
+  unfold check_all. intros H n m Hm Hn. rewrite forallb_forall in H.
+  specialize (H n). rewrite forallb_forall in H. apply H; apply in_seq; lia.
+Qed.
+
 Lemma check_all_12 : check_all 12 = true.
 Proof. vm_compute. reflexivity. Qed.
 
@@ -324,9 +330,7 @@ Theorem legendre_matches_spec_12 : forall n m phi, (m <= n)%nat -> (n <= 12)%nat
   Smn OpsR n m * Pmn RR (sin phi) (cos phi) n m = Pschmidt n m phi /\
   Smn OpsR n m * dPmn RR (sin phi) (cos phi) n m = - dPschmidt n m phi.
 Proof.
-  intros n m phi Hm Hn. apply check_sound.
-  pose proof check_all_12 as H. unfold check_all in H. rewrite forallb_forall in H.
-  specialize (H n). rewrite forallb_forall in H. apply H; apply in_seq; lia.
+  intros n m phi Hm Hn. apply check_sound. exact (check_all_spec 12 check_all_12 n m Hm Hn).
 Qed.
 
 (* ------------------------------------------------------------------------------------------ *)
